@@ -51,3 +51,41 @@ Print Assumptions C12_best_egress_is_code.
 Theorem C12_reverse_step_is_code : forall d p k st c, rev_step_code d p k st c = rev_step d p k false st c.
 Proof. exact rev_step_tie. Qed.
 Print Assumptions C12_reverse_step_is_code.
+
+(* ---- THE WHOLE-PIPELINE SHIFT THEOREM (Proofs/Shift.v): moving every scheduled time of the data and the requested
+   time by dl moves every reported clock time by dl and leaves status, reason, durations, counts, stops, lines and trips
+   unchanged — for route answers, alternatives and both accessibility maps.  Domain: all clock values of data and
+   request in [0, 32 h) before and after (the wf predicates on both sides).  Proviso (arrival-time route requests
+   only): no candidate departure-from-origin time (boarding departure - minimum waiting - access walk) changes sign
+   under the shift — the formal reading of "both answers stay within [0, 32 h)"; Example shift_proviso_needed in
+   Shift.v shows it cannot be dropped (best_access tests `t >= 0`, which C04 makes part of admissibility). ---- *)
+From TrV Require Import Proofs.Shift.
+Theorem C12_shift_route : forall dl d s p acc egr fresh,
+  wf_data_b d = true -> wf_data_b (shift_data dl d) = true ->
+  wf_tables_b d p acc egr = true -> wf_params_b p = true -> wf_params_b (shift_params dl p) = true ->
+  shift_safe d s p acc dl = true ->
+  calc_single (shift_data dl d) (conn_set (shift_data dl d) s) (shift_params dl p) acc egr fresh =
+  map_outcome (shift_res dl) (calc_single d (conn_set d s) p acc egr fresh).
+Proof. exact C12_calc_single. Qed.
+Print Assumptions C12_shift_route.
+
+Theorem C12_shift_alternatives : forall dl d s p acc egr,
+  shift_dom d s p acc egr dl = true -> shift_safe d s p acc dl = true ->
+  alternatives (shift_data dl d) (conn_set (shift_data dl d) s) (shift_params dl p) acc egr =
+  map_outcome (shift_alt_res dl) (alternatives d (conn_set d s) p acc egr).
+Proof. exact shift_alternatives. Qed.
+Print Assumptions C12_shift_alternatives.
+
+Theorem C12_shift_accessibility : forall dl d s p rows,
+  shift_dom d s p (if q_fwd p then rows else []) (if q_fwd p then [] else rows) dl = true ->
+  calc_allnodes (shift_data dl d) (conn_set (shift_data dl d) s) (shift_params dl p) rows =
+  map_outcome (shift_acc_res dl) (calc_allnodes d (conn_set d s) p rows).
+Proof. exact shift_calc_allnodes. Qed.
+Print Assumptions C12_shift_accessibility.
+
+Theorem C12_domain_from_wf : forall dl d s p acc egr,
+  wf_data_b d = true -> wf_data_b (shift_data dl d) = true ->
+  wf_tables_b d p acc egr = true -> wf_params_b p = true -> wf_params_b (shift_params dl p) = true ->
+  shift_dom d s p acc egr dl = true.
+Proof. exact wf_shift_dom. Qed.
+Print Assumptions C12_domain_from_wf.
